@@ -20,22 +20,7 @@ from .oracles import V
 
 
 def model_regex(d, for_ambiguity=False):
-    parts = []
-    for tok in d["tokens"]:
-        if tok[0] == "lit":
-            parts.append(re.escape(tok[1]))
-        elif tok[0] == "opt":
-            rx = {"d": r"\d+", "f": r"\d+\.\d+", "w": r"[A-H]+", "": r"[K-P]+", "Color": r"[A-Z]+"}[tok[2]]
-            parts[-1] = parts[-1] + "(?: %s (%s))?" % (re.escape(tok[3]), rx)
-        else:
-            ftype = tok[2]
-            if d["matcher"] == "re":
-                rx = {"d": r"\d+", "f": r"\d+\.\d+", "w": r"[A-H]+", "": r"[K-P ]+", "Color": r"[A-Z]+"}[ftype]
-            else:
-                # documented parse semantics: untyped field = any text (non-greedy); d / f / w as documented
-                rx = {"d": r"\d+", "f": r"\d+\.\d+", "w": r"\w+", "": r".+?", "Color": r"[A-Z]+"}[ftype]
-            parts.append("(" + rx + ")")
-    return re.compile("^" + " ".join(parts) + "$")
+    return W.def_regex(d)
 
 
 def pattern_text(d):
@@ -65,8 +50,9 @@ def gen_history(rng):
                 typ = d["type"] if rng.random() < 0.6 else rng.choice(["given", "when", "then", "step"])
                 # the colliding registration may come after a use_step_matcher() switch
                 mt = d["matcher"] if rng.random() < 0.5 else rng.choice(["parse", "cfparse", "re"])
-                if mt == "re" and any(t[0] == "fld" and t[2] == "Color" for t in toks):
-                    mt = d["matcher"]
+                if (mt != "cfparse" and any(W.tok_card(t) for t in toks)) or \
+                        (mt == "re" and any(t[0] == "fld" and t[2] in ("Color", "Num") for t in toks)):
+                    mt = d["matcher"]       # cardinality needs cfparse, custom types need a parse matcher
                 extra.append({"id": "x%d" % len(extra), "type": typ, "matcher": mt,
                               "tokens": toks, "module": d["module"], "after": d["id"], "async": False})
         elif r < 0.4:
@@ -100,7 +86,10 @@ def render_module(mod_defs, mi, reload_marker, conv_variant=0):
              "        raise ValueError('cannot convert BAD')",
              "    return text.lower()%s" % (" + '#%d'" % conv_variant if conv_variant else ""),
              "_conv_color.pattern = r'[A-Z]+'",
-             "register_type(Color=_conv_color)", ""]
+             "def _conv_num(text):",
+             "    return int(text)",
+             "_conv_num.pattern = r'\\d+'",
+             "register_type(Color=_conv_color, Num=_conv_num)", ""]
     cur = "parse"       # the default matcher is in force at the start of every module
     for d in mod_defs:
         if d["matcher"] != cur:
@@ -295,11 +284,16 @@ def evaluate(seed, hashseed, root, stats):
                     continue
                 gi += 1
                 raw = mm.group(gi)
-                if tok[0] == "fld" and tok[2] == "Color" and raw == "BAD" and chosen["matcher"] != "re":
+                if tok[0] == "fld" and tok[2] == "Color" and chosen["matcher"] != "re" and \
+                        "BAD" in [x.strip() for x in (raw or "").split(",")]:
                     conv_fail = True
-                val = None if (conv_fail or raw is None) else W.convert_value(tok[2], raw, chosen["matcher"])
+                val = None if (conv_fail or raw is None) else W.convert_value(tok[2], raw, chosen["matcher"], W.tok_card(tok))
+                if W.tok_card(tok):
+                    k_ = "lookup:cardinality-field(%s)" % W.tok_card(tok)
+                    stats.fired[k_] = stats.fired.get(k_, 0) + 1
                 if val is not None and tok[2] == "Color" and chosen["matcher"] != "re" and chosen.get("conv_variant"):
-                    val += "#%d" % chosen["conv_variant"]       # the converter declared when the definition was made
+                    sfx = "#%d" % chosen["conv_variant"]       # the converter declared when the definition was made
+                    val = [x + sfx for x in val] if isinstance(val, list) else val + sfx
                     stats.fired["lookup:re-registered-converter"] = stats.fired.get("lookup:re-registered-converter", 0) + 1
                 exp.append({"name": tok[1] or None, "start": mm.start(gi), "end": mm.end(gi), "original": raw,
                             "value": val})
